@@ -38,13 +38,24 @@ func c18Planned(e *Env, viol func(kind, sig, what, chk string, rep any), mu *syn
 		if len(edits) == 0 {
 			return
 		}
+		// what the edit set destroys, read off the two schemas (an object added and dropped again inside the
+		// set never existed)
 		want := map[string]bool{}
-		for _, ed := range edits {
-			switch ed.Kind {
-			case "drop-table":
+		for _, ct := range cur.Tables {
+			var dt *sqTable
+			for _, t := range des.Tables {
+				if t.Name == ct.Name {
+					dt = t
+				}
+			}
+			if dt == nil {
 				want["DS102"] = true
-			case "drop-column":
-				want["DS103"] = true
+				continue
+			}
+			for _, cc := range ct.Cols {
+				if dt.col(cc.Name) == nil {
+					want["DS103"] = true
+				}
 			}
 		}
 		dir := filepath.Join(e.Work, fmt.Sprintf("c18plan-%d", ci))
